@@ -55,7 +55,7 @@ def _run_once(chk):
                     r = l
                 if wellformed_bound(l, r):
                     break
-            fb = rng.choice(["F", "a-b", "", " ", "n/a ", "\t", " x", "n=a", "==", None, None, None, None])      # verbatim: blanks at either end included
+            fb = rng.choice(["F", "a-b", "", " ", "n/a ", "\t", " x", "n=a", "==", "C:\\tmp\\new", "a\\nb", None, None, None, None, None])      # verbatim: blanks at either end included
             bs.append((l, r, fb, single))
         btxt = ",".join(bound_text(*b) for b in bs)
         generic = rng.choice([None, None, b"G", b""])
